@@ -244,6 +244,12 @@ def maybe_permuted(rng, ts, p=0.5):
     return gen.permute_nodes(rng, ts) if rng.random() < p else ts
 
 
+def maybe_root_mutations(rng, ts, p=0.4):
+    """with probability p add 1-3 mutations above the root of the local tree (on no edge): valid
+    input that simulators never produce"""
+    return gen.add_root_mutations(rng, ts) if rng.random() < p else ts
+
+
 def annotate_rows(table, rng):
     """add a key to every row of a JSON-metadata table (as a user, or preprocess_ts'
     unsplit_node_id, would between two datings)"""
